@@ -166,7 +166,8 @@ Print Assumptions C01_assembled_request.
    ingredients; what is missing is the induction over the frames of the request that carries "the table entry of
    sid is hfold over the fields decoded so far, its body the DATA payloads so far" through C09_hpack_fragment,
    C01_data_appended and C01_other_streams_untouched. The message-validation agent proves exactly this for the
-   lock-step schedule from any `ready` state - Proofs/SrvMsgReq.v `request_outcome`, Props/C20.v - with trailers and
+   lock-step schedule from any `ready` state - Props/C20.v C20_server_accepts / _refuses / _iff / _over_limits (Proofs/SrvMsgC20.v, core `request_run` in
+   Proofs/SrvMsgReq.v; `ready_init` for init_conn) - with trailers and
    with the negative half: a malformed / oversized request is never dispatched).
    frames_of_request: HEADERS CONTINUATION* (any split hfrags of the block), DATA* (any chunking), END_STREAM on the
    last frame; the fragments decode (by the reference, from the decoder state at that moment) to fs; the model
